@@ -73,19 +73,40 @@ VARIABLES pats, known, opened, last, owner
 vars == <<pats, known, opened, last, owner>>
 
 \* ------------------------------------------------------------- vocabulary
-MCChars == [n \in {"R", "s", "S", "o", "t", "d", "a.txt", "c.txt"} |->
-              CASE n = "a.txt" -> <<"a", ".", "t", "x", "t">>
-                [] n = "c.txt" -> <<"c", ".", "t", "x", "t">>
-                [] OTHER       -> <<n>>]
+\* Characters of the names in use (every other name is its own characters).
+Spell(n) == CASE n = "a.txt"   -> <<"a", ".", "t", "x", "t">>
+              [] n = "c.txt"   -> <<"c", ".", "t", "x", "t">>
+              [] n = "x.txt"   -> <<"x", ".", "t", "x", "t">>
+              [] n = "77.txt"  -> <<"7", "7", ".", "t", "x", "t">>
+              [] n = "filters" -> <<"f", "i", "l", "t", "e", "r", "s">>
+              [] n = "sx"      -> <<"s", "x">>
+              [] n = "s.b"     -> <<"s", ".", "b">>
+              [] n = "s.d"     -> <<"s", ".", "d">>
+              [] n = "s_old"   -> <<"s", "_", "o", "l", "d">>
+              [] OTHER         -> <<n>>
+MCChars == [n \in {"R", "D", "s", "S", "o", "t", "d", "a.txt", "c.txt", "x.txt", "77.txt", "filters",
+                   "sx", "s.b", "s.d", "s_old"} |-> Spell(n)]
 
 INSTANCE SafePathCore WITH Chars <- MCChars
 
 \* The test tree: directories and sentinel files (each with its own rule).
+\* Next to the directory "s" that the directory patterns name there are
+\* SIBLINGS whose names merely begin like it (one, two and more characters
+\* longer), as files and as a directory holding a file: glob semantics decide,
+\* and no pattern of this model matches any of them except through "*".
+\* "D" is the server's own data directory (the harness concretises it as the
+\* DataDir of the very server the request goes to): "D/filters" is where the
+\* server keeps the downloaded copies, "77.txt" looks like such a copy.  The
+\* data directory is not special: no configured pattern, no read.
 Dirs  == {<<"R">>, <<"R", "s">>, <<"R", "s", "d">>, <<"R", "o">>, <<"R", "t">>,
-          <<"R", "S">>}           \* differs from "s" in case only: a different directory
+          <<"R", "S">>,           \* differs from "s" in case only: a different directory
+          <<"R", "s.d">>,
+          <<"D">>, <<"D", "filters">>}
 Files == {<<"R", "a.txt">>, <<"R", "s", "a.txt">>, <<"R", "s", "c.txt">>,
           <<"R", "s", "d", "a.txt">>, <<"R", "o", "a.txt">>, <<"R", "o", "c.txt">>,
-          <<"R", "t", "a.txt">>, <<"R", "S", "a.txt">>}
+          <<"R", "t", "a.txt">>, <<"R", "S", "a.txt">>,
+          <<"R", "sx">>, <<"R", "s.b">>, <<"R", "s_old">>, <<"R", "s.d", "a.txt">>,
+          <<"D", "filters", "x.txt">>, <<"D", "filters", "77.txt">>, <<"D", "x.txt">>}
 Cwd   == <<"R", "o">>     \* working directory of the server: outside every pattern
 
 LitSeq(cs) == [i \in 1..Len(cs) |-> Lit(cs[i])]
@@ -122,6 +143,7 @@ SeqsUpTo(S, n) == UNION {SeqsN(S, k) : k \in 0..n}
 
 Plain(abs, tail) == [scheme |-> "none", abs |-> abs, segs |-> IF abs THEN <<"R">> \o tail ELSE tail]
 URL(sc, abs, tail) == [scheme |-> sc, abs |-> abs, segs |-> <<"R">> \o tail]
+At(sc, root, tail)  == [scheme |-> sc, abs |-> TRUE, segs |-> <<root>> \o tail]
 
 GenLocs ==
     \* absolute spellings below R
@@ -137,13 +159,23 @@ GenLocs ==
     \* URL-looking strings
       \cup {URL(sc, ab, t) : sc \in Schemes \ {"none"}, ab \in BOOLEAN,
                              t \in SeqsUpTo({"s", "o", "a.txt", "..", ""}, 3)}
+    \* siblings of the pattern directory "s"
+      \cup UNION {{Plain(TRUE, t) : t \in {<<n>>, <<n, "">>, <<"s", "..", n>>, <<".", n>>, <<n, "a.txt">>,
+                                            <<n, "..", n>>, <<"s", "", "..", n, ".">>}}
+                    \cup {URL("file", TRUE, <<n>>)} : n \in {"sx", "s.b", "s_old", "s.d"}}
+    \* locations inside the server's own data directory
+      \cup {At("none", "D", t) : t \in {<<"filters", "x.txt">>, <<"filters", "77.txt">>, <<"x.txt">>, <<"filters">>,
+                                        <<"filters", "..", "x.txt">>, <<"filters", "", "77.txt">>,
+                                        <<"filters", ".", "x.txt", "">>, <<"filters", "x.txt", "..", "77.txt">>,
+                                        <<"filters", "..", "filters", "x.txt">>}}
+      \cup {At("file", "D", <<"filters", "x.txt">>), At("file", "D", <<"filters", "77.txt">>)}
 
 MCLocs ==
     {Plain(TRUE, t) : t \in {<<"s", "a.txt">>, <<"s", "c.txt">>, <<"o", "a.txt">>, <<"t", "a.txt">>,
                              <<"s", "d", "a.txt">>, <<"s", "..", "o", "a.txt">>,
                              <<"o", "..", "s", "", "a.txt", "">>, <<"s", "d", "..", ".", "c.txt">>,
                              <<"..", "..", "s", "a.txt">>, <<"s", "d">>, <<>>}}
-      \cup {Plain(TRUE, <<"S", "a.txt">>)}
+      \cup {Plain(TRUE, <<"S", "a.txt">>), Plain(TRUE, <<"s_old">>), At("none", "D", <<"filters", "x.txt">>)}
       \cup {Plain(FALSE, t) : t \in {<<"a.txt">>, <<"..", "s", "a.txt">>, <<"s", "a.txt">>}}
       \cup {URL(sc, TRUE, <<"s", "a.txt">>) : sc \in {"file", "ftp", "http"}}
       \cup {URL("file", FALSE, <<"s", "a.txt">>), URL("file", TRUE, <<"s", "..", "o", "a.txt">>)}
@@ -325,6 +357,10 @@ ASSUME MatchPath(Globs[6], <<"R", "o", "a.txt">>) /\ ~MatchPath(Globs[6], <<"R",
 ASSUME \A f \in Files \cup Dirs : ~MatchPath(Globs[7], f) /\ ~MatchPath(Globs[8], f)
 ASSUME ~MatchPath(Globs[2], <<"R", "S", "a.txt">>) /\ ~MatchPath(Globs[4], <<"R", "S", "a.txt">>)
 ASSUME \A f \in Files \cup Dirs : IsCleanAbs(f)
+\* Beginning like the pattern directory is not being in it; the data directory
+\* is matched by nothing.
+ASSUME \A i \in 1..Len(Globs) : \A n \in {"sx", "s.b", "s_old", "s.d"} : ~MatchPath(Globs[i], <<"R", n>>)
+ASSUME \A i \in 1..Len(Globs) : \A f \in Files \cup Dirs : f[1] = "D" => ~MatchPath(Globs[i], f)
 \* Scribbling matters: the owner's new patterns match files that, e.g., the
 \* exact-path configuration {1} forbids.
 ASSUME MatchPath(ScribbleGlobs[1], <<"R", "o", "a.txt">>) /\ MatchPath(ScribbleGlobs[2], <<"R", "a.txt">>)
